@@ -6,7 +6,7 @@
 (* validated by TraceStore.                                                  *)
 EXTENDS StoreProps, Json
 
-CONSTANTS Menu, MaxFlushes, MaxCrashes, Depth, Sorted, AllowClose
+CONSTANTS Menu, MaxFlushes, MaxCrashes, Depth, Sorted, AllowClose, AllowCrash
 
 VARIABLES hist, crashes
 svars == <<vars, hist, crashes>>
@@ -61,7 +61,7 @@ SimNext ==
        \/ FlushRename(t) /\ H([a |-> "FlushRename", t |-> t]) /\ UNCHANGED crashes
        \/ FlushSwap(t) /\ H([a |-> "FlushSwap", t |-> t]) /\ UNCHANGED crashes
        \/ OffWrite(t) /\ H([a |-> "OffWrite", t |-> t]) /\ UNCHANGED crashes
-  \/ /\ crashes < MaxCrashes /\ Len(wal) > 0
+  \/ /\ AllowCrash /\ crashes < MaxCrashes /\ Len(wal) > 0
      /\ Crash /\ crashes' = crashes + 1 /\ H([a |-> "Crash"])
   \/ /\ AllowClose /\ crashes < MaxCrashes /\ Len(wal) > 0
      /\ CleanClose /\ crashes' = crashes + 1 /\ H([a |-> "Close"])
@@ -72,6 +72,8 @@ SimNext ==
 
 SimSpec == SimInit /\ [][SimNext]_svars
 
-\* printed once per behaviour, when it reaches the requested depth
-Emit == Len(hist) = Depth => PrintT(<<"ZVSIM", ToJson(hist)>>)
+\* printed once per behaviour: when it reaches the requested depth, or earlier
+\* when nothing more can happen within the bounds
+Emit == (Len(hist) = Depth \/ (Len(hist) < Depth /\ Len(hist) > 8 /\ ~ENABLED SimNext))
+          => PrintT(<<"ZVSIM", ToJson(hist)>>)
 =============================================================================
